@@ -64,7 +64,7 @@ theorem iterInv_local {g : L} {x : X} {s s' : St L X U V} {i : Tid} {t t' : Thre
   · rw [hi]; exact inv.nd
   · rw [he]; exact inv.noerr
 
-theorem iterInv_step {g : L} {x : X} {ap : U → V → V} {s s' : St L X U V} {i : Tid}
+theorem iterInv_step {g : L} {x : X} {ap : U → V → V → V} {s s' : St L X U V} {i : Tid}
     (inv : IterInv g x s) (h : step ap s i = some s') : IterInv g x s' := by
   obtain ⟨t, m, r, ht, hpc, he⟩ := step_some h
   have hti := inv.thr i t ht
@@ -183,7 +183,7 @@ theorem iterInv_step {g : L} {x : X} {ap : U → V → V} {s s' : St L X U V} {i
     refine iterInv_local inv ht rfl rfl rfl rfl ?_
     intro h o d; rw [hpc] at d; simpa [discIt] using d
 
-theorem iterInv_run {g : L} {x : X} {ap : U → V → V} (c0 : X → V) (progs : List (List (Micro L X U)))
+theorem iterInv_run {g : L} {x : X} {ap : U → V → V → V} (c0 : X → V) (progs : List (List (Micro L X U)))
     (h : ∀ p ∈ progs, discIt g x p false false = true) (sched : List Tid) :
     IterInv g x (run ap (init c0 progs) sched) :=
   run_induction _ (fun _ _ _ inv hs => iterInv_step inv hs) sched _ (iterInv_init c0 progs h)
